@@ -1315,7 +1315,7 @@ def slg_with(max_size):
 
 
 # the minimal witnesses of DESIGN §5 that live in this fragment (always part of the corpus)
-def corpus():
+def corpus(neg_ring=False):
     out = []
     # F1
     p = Prog(_consts(2, "I") + [Adt("Vec", 1)], [Trait("Foo", 1)],
@@ -1344,6 +1344,21 @@ def corpus():
     q.order = [("trait", 0), ("impl", 0), ("impl", 4), ("trait", 1), ("adt", 0), ("trait", 3), ("adt", 1), ("impl", 1), ("impl", 2), ("trait", 2), ("impl", 3)]
     out.append((q, [("exists", (2, 3), ("and", (("atom", ("P1", (var(2),))), ("atom", ("P4", (var(3),)))))),
                     ("atom", ("P1", (adt("A"),))), ("forall", (4,), ("atom", ("P4", (var(4),))))]))
+    # round-5 seed `neg-literal-conditional-wrong-field`: a coinductive ring with a FAILING member
+    # (C1 :- C3, C2 ; C2 :- C1 ; no C3): refuting one member leaves a conditional (delayed) answer in
+    # the table of the other, which a later negative literal of the same query must not take for a proof.
+    # Both where-clause orders, the negations in both orders, nested and alone.
+    B = adt("B")
+    for rev in ((False, True) if neg_ring else ()):
+        wcs = [("C3", (B,)), ("C2", (B,))]
+        if rev:
+            wcs.reverse()
+        p = Prog([Adt("B")], [Trait("C%d" % i, 0, ("coinductive",)) for i in (1, 2, 3)],
+                 [Impl(0, ("C1", (B,)), wcs), Impl(0, ("C2", (B,)), [("C1", (B,))])], "corpus-neg-ring")
+        n1, n2 = ("not", ("atom", ("C1", (B,)))), ("not", ("atom", ("C2", (B,))))
+        out.append((p, [("and", (n1, n2)), ("and", (n2, n1)), ("not", ("and", (n1, ("atom", ("C2", (B,)))))),
+                        ("not", ("and", (n2, ("atom", ("C1", (B,)))))), n1, n2,
+                        ("and", (n1, n2, n1)), ("atom", ("C2", (B,)))]))
     # provisional result read by a sibling (recursive solver, minimums.update_from seed)
     # (the recursive solver works through where-clauses back to front and impls in declaration
     #  order; the witnesses need one particular order, so all four reversals are kept)
